@@ -58,6 +58,7 @@ def run_case(case, ctx):
         if kd >= m:
             ctx.check(kk == m, 'full_length_when_krylov_space_large_enough', f'len={kk} m={m} kd={kd}')
         lead = min(kk, kd)
+        ctx.check(bool(np.all(np.isfinite(alpha)) and np.all(np.isfinite(beta)) and np.all(np.isfinite(V))), 'outputs_finite')
         ctx.check(np.isrealobj(alpha) and np.isrealobj(beta), 'coefficients_real')
         Vl = V[:, :lead]
         ctx.close(Vl.conj().T @ Vl, np.identity(lead), 'lanczos_vectors_orthonormal', tol=1e-9)
@@ -74,6 +75,7 @@ def run_case(case, ctx):
         if kd >= m:
             ctx.check(kk == m, 'full_length_when_krylov_space_large_enough', f'len={kk} m={m} kd={kd}')
         lead = min(kk, kd)
+        ctx.check(bool(np.all(np.isfinite(H)) and np.all(np.isfinite(V))), 'outputs_finite')
         Vl = V[:, :lead]
         Hl = H[:lead, :lead]
         ctx.close(Vl.conj().T @ Vl, np.identity(lead), 'arnoldi_vectors_orthonormal', tol=1e-9)
